@@ -33,15 +33,27 @@ Print Assumptions C07_line_table_prefix.
 (* the parser is a function of the token list: everything it produces except the line table is
    the same for ParseFile over chunks cs and Parse on the whole input *)
 Theorem C07_parse_file : forall name cs,
-  let a := parse_chunks name cs in let b := parse_whole name (concat cs) in
-  pr_ok a = pr_ok b /\ pr_diags a = pr_diags b /\ pr_stats a = pr_stats b
-  /\ g_code (pr_prog a) = g_code (pr_prog b) /\ g_consts (pr_prog a) = g_consts (pr_prog b)
-  /\ g_pos (pr_prog a) = g_pos (pr_prog b) /\ g_name (pr_prog a) = g_name (pr_prog b).
+  pr_ok (parse_chunks name cs) = pr_ok (parse_whole name (concat cs))
+  /\ pr_diags (parse_chunks name cs) = pr_diags (parse_whole name (concat cs))
+  /\ pr_stats (parse_chunks name cs) = pr_stats (parse_whole name (concat cs))
+  /\ g_code (pr_prog (parse_chunks name cs)) = g_code (pr_prog (parse_whole name (concat cs)))
+  /\ g_consts (pr_prog (parse_chunks name cs)) = g_consts (pr_prog (parse_whole name (concat cs)))
+  /\ g_pos (pr_prog (parse_chunks name cs)) = g_pos (pr_prog (parse_whole name (concat cs)))
+  /\ g_name (pr_prog (parse_chunks name cs)) = g_name (pr_prog (parse_whole name (concat cs))).
 Proof.
-  intros name cs. unfold parse_whole, parse_chunks.
-  pose proof (lex_chunk_independent cs) as H.
-  destruct (lex cs) as [ts l]. destruct (lex [concat cs]) as [ts' l']. cbn [fst] in H. subst ts'.
-  cbn. repeat split; reflexivity.
+  intros name cs. unfold parse_whole.
+  assert (G : forall cs1 cs2, fst (lex cs1) = fst (lex cs2) ->
+    pr_ok (parse_chunks name cs1) = pr_ok (parse_chunks name cs2)
+    /\ pr_diags (parse_chunks name cs1) = pr_diags (parse_chunks name cs2)
+    /\ pr_stats (parse_chunks name cs1) = pr_stats (parse_chunks name cs2)
+    /\ g_code (pr_prog (parse_chunks name cs1)) = g_code (pr_prog (parse_chunks name cs2))
+    /\ g_consts (pr_prog (parse_chunks name cs1)) = g_consts (pr_prog (parse_chunks name cs2))
+    /\ g_pos (pr_prog (parse_chunks name cs1)) = g_pos (pr_prog (parse_chunks name cs2))
+    /\ g_name (pr_prog (parse_chunks name cs1)) = g_name (pr_prog (parse_chunks name cs2))).
+  { intros cs1 cs2 H. unfold parse_chunks.
+    destruct (lex cs1) as [t1 l1]. destruct (lex cs2) as [t2 l2]. cbn [fst] in H. subst t2.
+    repeat split; reflexivity. }
+  exact (G cs [concat cs] (lex_chunk_independent cs)).
 Qed.
 Print Assumptions C07_parse_file.
 
